@@ -82,6 +82,15 @@ def run(ctx):
             allow[(fk, "skip")] = "skip(1): elements 1.. are compared with element 0 (scheme consistency; validated by E4.scheme)"
             allow[(fk, "windows")] = "windows(2): adjacent pairs compared (scheme consistency; validated by E4.scheme)"
         F.check_no_dropping_adapters(ctx, "E7.adapters", P, [fk], allow=allow)
+    # tables keyed by a share identifier cover the whole identifier range (1..=255)
+    from .common import reachable_fns
+
+    roots = [P.fns.get(k) for k in ("SecretKey<C>::combine", "Signature<C>::from_shares", "PublicKey<C>::from_shares", "SignCryptDecryptionKey<C>::from_shares", "ElGamalDecryptionKey<C>::from_shares", "SecretKey<C>::split_with_rng", "SecretKeyShare<C>::sign", "SignatureShare<C>::verify", "BlsSignCrypt::unseal_with_shares")]
+    reach = reachable_fns(P, [r for r in roots if r is not None])
+    F.check_u8_tables(ctx, "E4.id-table", P, [reach[k] for k in sorted(reach)])
+    from .posctl import run_posctl
+
+    run_posctl(ctx, "E4.id-table", "u8-tables")
     # core combiners forward their slice unmodified
     for fk in ("BlsSignatureCore::core_combine_signature_shares", "BlsSignatureCore::core_combine_public_key_shares"):
         f = ctx.need_fn("E6.combine", fk)
